@@ -69,6 +69,7 @@ class Ctx:
         self.concolic = concolic
         self.values = values       # A2 layer: constrain angle values
         self.max_decisions = 200
+        self.rules = []            # (z3 var v, z3 rhs): v*v == rhs is asserted; used as rewrite rule (poly.py)
         self.mods = 0
 
     def fresh(self, name, sort='real'):
@@ -97,6 +98,10 @@ class Ctx:
         k = cond.get_id()
         if k in self.known:
             return self.known[k][0]
+        folded = self._fold_by_normal_form(cond)
+        if folded is not None:
+            self.known[k] = (folded, cond)
+            return folded
         if self.pos < len(self.decisions):
             d = self.decisions[self.pos]
         else:
@@ -111,6 +116,32 @@ class Ctx:
         self.known[neg.get_id()] = (not d, neg)
         self.path.append(cond if d else neg)
         return d
+
+    def _fold_by_normal_form(self, cond):
+        """a comparison whose two sides differ by a constant modulo the asserted sphere constraints
+        (e.g. det(R R^T) > 0 for a product of rotations) is decided without forking"""
+        if not self.rules or not z3.is_app(cond):
+            return None
+        neg = False
+        c = cond
+        if z3.is_not(c):
+            neg, c = True, c.arg(0)
+        kind = c.decl().kind()
+        ops = {z3.Z3_OP_LE: lambda d: d <= 0, z3.Z3_OP_GE: lambda d: d >= 0, z3.Z3_OP_LT: lambda d: d < 0,
+               z3.Z3_OP_GT: lambda d: d > 0, z3.Z3_OP_EQ: lambda d: d == 0}
+        if kind not in ops or c.num_args() != 2 or not z3.is_arith(c.arg(0)):
+            return None
+        from .poly import Normalizer, TooBig
+        try:
+            nf, zero = Normalizer(self.rules, 80000).normal_form(c.arg(0) - c.arg(1))
+        except TooBig:
+            return None
+        nf = z3.simplify(nf)
+        if not z3.is_rational_value(nf):
+            return None
+        r = bool(ops[kind](nf.as_fraction()))
+        self.nlemmas = getattr(self, 'nlemmas', 0) + 1
+        return (not r) if neg else r
 
     def require(self, label, cond, kind='claim'):
         if isinstance(cond, SBool):
@@ -411,8 +442,40 @@ def _divcheck(b):
     c.path.append(b.e != 0)
 
 
+def _const_resolve(c, b, cands=(1, -1)):
+    """solver-validated lemma: is the Term provably equal to one of a few constants on this path?"""
+    key = ('const', b.e.get_id())
+    if key in c.div_memo:
+        return c.div_memo[key][0]
+    out = None
+    from .poly import normalize_eq
+    from .poly import which_zero
+    kz = which_zero(c.rules, [b.e - rv(k) for k in cands])
+    if kz is not None:
+        c.div_memo[key] = (cands[kz], b.e)
+        c.notes.append(('divisor-resolved-nf', cands[kz]))
+        return cands[kz]
+    for k in cands:
+        s = z3.Solver()
+        s.set('timeout', 2000)
+        s.add(*c.assumptions)
+        s.add(*c.path)
+        s.add(b.e != k)
+        if str(s.check()) == 'unsat':
+            out = k
+            c.nlemmas = getattr(c, 'nlemmas', 0) + 1
+            c.notes.append(('divisor-resolved', k))
+            break
+    c.div_memo[key] = (out, b.e)
+    return out
+
+
 def _div(a, b):
     c = ctx()
+    if not c.concolic:
+        k = _const_resolve(c, b)
+        if k is not None:
+            return a * k          # 1/k == k for k in {1, -1}
     _divcheck(b)
     if c.concolic:
         return Term(a.e / b.e, None, a.val / b.val)
@@ -455,28 +518,45 @@ def _sqrt(x):
         rn, rd = _math.isqrt(n), _math.isqrt(d)
         if rn * rn == n and rd * rd == d:
             return Term.lift(Fraction(rn, rd))
-    if (x < 0):
-        raise ValueError('math domain error')
     if c.concolic:
+        if x.val < 0:
+            raise ValueError('math domain error')
         return Term(x.e, None, _math.sqrt(x.val))
     xs = z3.simplify(x.e)
     key = xs.get_id()
-    if key not in c.sqrt_memo:
-        res = _sqrt_resolve(c, x)
-        if res is None:
-            r = c.fresh('sqrt')
-            c.assumptions += [r >= 0, r * r == x.e]
-            res = Term(r)
-        c.sqrt_memo[key] = (res, xs)
-    return c.sqrt_memo[key][0]
+    if key in c.sqrt_memo:
+        return c.sqrt_memo[key][0]
+    # radicands that normalise to a perfect square need no domain fork and no fresh variable
+    res = _sqrt_resolve(c, x, use_solver=False)
+    if res is None:
+        if (x < 0):
+            raise ValueError('math domain error')
+        res = _sqrt_resolve(c, x, use_solver=True)
+    if res is None:
+        r = c.fresh('sqrt')
+        c.assumptions += [r >= 0, r * r == x.e]
+        c.rules.append((r, x.e))
+        res = Term(r)
+    c.sqrt_memo[key] = (res, xs)
+    return res
 
 
-def _sqrt_resolve(c, x):
+def _sqrt_resolve(c, x, use_solver=True):
     """sqrt resolution by solver-validated lemmas (DESIGN 3.5): for each hint g (the constant 1 and
     the Terms the harness registered), if z3 proves radicand == g*g under the assumptions and the path
     so far, the result is |g| -- no fresh variable, no nested square root for the later queries.
     A hint that is not proved (sat/unknown within 2 s) is simply not used."""
-    hints = [Term.lift(1)] + list(getattr(c, 'sqrt_hints', []))
+    from .poly import normalize_eq
+    hints = [Term.lift(1), Term.lift(0)] + list(getattr(c, 'sqrt_hints', []))
+    if not use_solver:
+        # does the radicand normalise to g*g modulo the asserted sphere constraints?
+        from .poly import which_zero
+        k = which_zero(c.rules, [x.e - g.e * g.e for g in hints])
+        if k is not None:
+            c.notes.append(('sqrt-resolved-nf', str(hints[k])[:60]))
+            c.nlemmas = getattr(c, 'nlemmas', 0) + 1
+            return abs(hints[k])
+        return None
     for g in hints:
         s = z3.Solver()
         s.set('timeout', 2000)
@@ -500,6 +580,7 @@ def new_atom(name, kind='input', lo=None, hi=None, val=None):
     co = c.fresh('cos')
     c.assumptions.append(s * s + co * co == 1)
     c.assumptions += [s >= -1, s <= 1, co >= -1, co <= 1]
+    c.rules.append((s, 1 - co * co))
     nm = str(v)
     c.atoms[nm] = (v, s, co)
     c.atom_meta[nm] = dict(kind=kind, lo=lo, hi=hi)
